@@ -33,7 +33,7 @@ def m_int(it, a, k):
         return 0
     if len(a) > 1 or k:
         if ops.all_concrete(a):
-            return it.native_call(int, a, k)
+            return it.raw_native(int, a, k)
         raise Unsupported("int() with base on symbolic value")
     return ops.to_int(it, a[0])
 
@@ -43,7 +43,7 @@ def m_str(it, a, k):
         return ""
     if len(a) > 1 or k:
         if ops.all_concrete(a):
-            return it.native_call(str, a, k)
+            return it.raw_native(str, a, k)
         raise Unsupported("str(bytes, encoding) on symbolic value")
     return ops.to_str(it, a[0])
 
@@ -117,10 +117,10 @@ def m_max(it, a, k):
             it.ctx.add_universal((role,), lambda kk, _d=dom, _m=m.term: z3.Implies(z3.Select(_d, kk), kk <= _m), "max")
             return m
         if ops.all_concrete([v]):
-            return it.native_call(max, a, k)
+            return it.raw_native(max, a, k)
         raise Unsupported("max over symbolic iterable")
     if ops.all_concrete(a):
-        return it.native_call(max, a, k)
+        return it.raw_native(max, a, k)
     r = a[0]
     for x in a[1:]:
         kr, tr = lift(r)
@@ -131,7 +131,7 @@ def m_max(it, a, k):
 
 def m_min(it, a, k):
     if ops.all_concrete(a):
-        return it.native_call(min, a, k)
+        return it.raw_native(min, a, k)
     if len(a) >= 2:
         r = a[0]
         for x in a[1:]:
@@ -212,6 +212,7 @@ def m_range(it, a, k):
 
 
 class SymRange:
+    _pyvc_symbolic = True
     def __init__(self, args):
         if len(args) == 1:
             self.start, self.stop = 0, args[0]
@@ -230,7 +231,7 @@ def m_next(it, a, k):
             return a[1]
         it.raise_(StopIteration)
     if ops.all_concrete([v]):
-        return it.native_call(next, a, k)
+        return it.raw_native(next, a, k)
     raise Unsupported("next() on symbolic iterator")
 
 
@@ -267,7 +268,7 @@ def m_any(it, a, k):
 
 def m_sorted(it, a, k):
     if ops.all_concrete(a) and ops.all_concrete(list(k.values())):
-        return it.native_call(sorted, a, k)
+        return it.raw_native(sorted, a, k)
     raise Unsupported("sorted() on symbolic values")
 
 
@@ -299,7 +300,7 @@ def m_deque(it, a, k):
 def m_float(it, a, k):
     v = ops.specialize(it, a[0])
     if not isinstance(v, SV):
-        return it.native_call(float, a, k)
+        return it.raw_native(float, a, k)
     if v.kind == "int":
         return SV("real", z3.ToReal(v.term))
     if v.kind == "real":
@@ -314,6 +315,7 @@ def m_float(it, a, k):
 
 
 class FloatVal:
+    _pyvc_symbolic = True
     """float(s) for a symbolic string: value py_float(s) with nan/inf flags (see T-vol)."""
 
     def __init__(self, src):
@@ -382,7 +384,7 @@ BUILTIN_MODELS = {
 def m_unhexlify(it, a, k):
     v = a[0]
     if ops.all_concrete(a):
-        return it.native_call(binascii.unhexlify, a, k)
+        return it.raw_native(binascii.unhexlify, a, k)
     v = ops.specialize(it, v)
     if v is None or (isinstance(v, SV) and v.kind not in ("str", "bytes")) or isinstance(v, (int, bool)):
         it.raise_(TypeError, "argument should be bytes, buffer or ASCII string")
@@ -397,7 +399,7 @@ def m_unhexlify(it, a, k):
 
 def m_hexlify(it, a, k):
     if ops.all_concrete(a):
-        return it.native_call(binascii.hexlify, a, k)
+        return it.raw_native(binascii.hexlify, a, k)
     v = a[0]
     t = ops._seq_term(v)
     h = lawbook(it.ctx).hexlify(t)
@@ -406,6 +408,7 @@ def m_hexlify(it, a, k):
 
 
 class HexBytes:
+    _pyvc_symbolic = True
     """bytes object produced by hexlify(): ASCII only, carried as its text."""
 
     def __init__(self, text_term):
@@ -422,7 +425,7 @@ def _word_le(b, i):
 def m_struct_unpack(it, a, k):
     fmt, data = a
     if ops.all_concrete(a):
-        return it.native_call(struct.unpack, a, k)
+        return it.raw_native(struct.unpack, a, k)
     if not isinstance(fmt, str):
         raise Unsupported("symbolic struct format")
     n = _parse_fmt(fmt)
@@ -449,7 +452,7 @@ def m_struct_pack(it, a, k):
     fmt = a[0]
     vals = a[1:]
     if ops.all_concrete(a):
-        return it.native_call(struct.pack, a, k)
+        return it.raw_native(struct.pack, a, k)
     if not isinstance(fmt, str):
         raise Unsupported("symbolic struct format")
     n = _parse_fmt(fmt)
